@@ -319,8 +319,9 @@ def build(C, opt):
                 w = out[0]
                 ver = jnp.round(W0 - jnp.where(jnp.isnan(w), 0.0, w)).astype(int)
                 q = TABLE[ver] + 0.0 * w + 0.0 * jnp.sum(params.nn_params.w)            # NaN network parameters (any entry) -> NaN criterion
-                # residual components: batch tag 2^id and q * 2^12  (squares: 4^id, q^2 * 4^12)
-                return jnp.stack([out[1], q * 4096.0])
+                # residual components: batch tag 2^id, q * 2^12 and the validation parameter sample 3 * 2^k (0 without a
+                # validation parameter generator)  (squares: 4^id, q^2 * 4^12, 9 * 4^k)
+                return jnp.stack([out[1], q * 4096.0, jnp.squeeze(params.eq_params["nu"]) + 0.0 * w])
 
         vloss = jinns.loss.LossODE(u=uv, dynamic_loss=EqV(Tmax=1), initial_condition=None, obs_slice=jnp.s_[1:2], params=params)
         vdata = jinns.data.DataGeneratorODE(jax.random.PRNGKey(opt["seed"] + 3), nv, 0.0, 1.0, bv, method="grid")
@@ -328,14 +329,21 @@ def build(C, opt):
         if opt.get("vobs"):
             pinv = ((6 + jnp.arange(nv)) / nv)[:, None]   # observation rows are tagged 4^(6+i)
             vobs = jinns.data.DataGeneratorObservations(jax.random.PRNGKey(opt["seed"] + 4), bv, pinv, jnp.zeros((nv, 1)))
-        validation = ValidationLoss(loss=vloss, validation_data=vdata, validation_obs_data=vobs, call_every=C["ce"],
+        vpar = None
+        if opt.get("vparam"):
+            vtab = _TAB.setdefault(("v", nv), jnp.array([3.0 * 2.0 ** k for k in range(nv)]))       # squares 9 * 4^k: the composite criterion stays below 2^31 (TLC integers)
+            vpar = jinns.data.DataGeneratorParameter(jax.random.PRNGKey(opt["seed"] + 5), nv, bv, user_data={"nu": vtab})
+        validation = ValidationLoss(loss=vloss, validation_data=vdata, validation_param_data=vpar, validation_obs_data=vobs, call_every=C["ce"],
                                     early_stopping=bool(C["earlyOn"]), patience=C["patience"])
         # reference: what the k-th invocation's criterion must be (composite integer, times bv)
         val_ref = []
-        g, go = vdata, vobs
+        g, go, gp = vdata, vobs, vpar
         for k, r in enumerate(ranks):
             g, bt = g.get_batch()
             m = sum(4 ** i for i in _ids_of_times(bt.temporal_batch, nv))
+            if gp is not None:
+                gp, pb = gp.get_batch()
+                m += sum(int(round(float(v))) ** 2 for v in np.asarray(pb["nu"]).ravel())
             if go is not None:
                 go, ob = go.get_batch()
                 m += sum(4 ** i for i in _ids_of_times(ob["pinn_in"], nv))
